@@ -1,4 +1,4 @@
-\* C04: every request of <= 2 tokens (resolvable, unknown, unqualified, padded; repetitions) on every population of two directories
+\* C04: every request of <= 2 tokens, and long requests (9, 12, 17 tokens) built from every pair of tokens (resolvable, unknown, unqualified, padded; repetitions) on every population of two directories
 SPECIFICATION Spec
 CONSTANTS
   DirIds = {"A", "B"}
@@ -12,7 +12,7 @@ CONSTANTS
   Contents <- InjContents
   WContents <- HContents
   NoiseContents <- QNoise
-  Requests <- QRequests
+  Requests <- QRequestsL
   MaxOps = 1
   MaxPending = 2
   BUG_F5 = FALSE
